@@ -914,7 +914,9 @@ func (r *Remote) addReferenceIfRefSpecMatches(rs config.RefSpec,
 		return nil
 	}
 
-	if forceWithLease != nil {
+	// a lease that names one ref covers only that ref; every other ref keeps the
+	// usual tag / fast-forward rules (git: --force-with-lease=<ref>)
+	if forceWithLease != nil && (forceWithLease.RefName == "" || forceWithLease.RefName == cmd.Name) {
 		if err = r.checkForceWithLease(localRef, cmd, forceWithLease); err != nil {
 			return err
 		}
